@@ -6,6 +6,7 @@ use crate::engine::*;
 use crate::gen;
 use serde_json::json;
 use std::path::{Path, PathBuf};
+use std::sync::atomic::{AtomicBool, Ordering};
 use std::time::Instant;
 
 pub const TERMINALS: [&str; 96] = [
@@ -108,6 +109,23 @@ fn options(t: &mut Tape, files: &[PathBuf], dir: &Path) -> RunOpts {
     o
 }
 
+/// Set once a generated case has exceeded both its first CPU budget and the 4x budget of its re-run.
+static HANG_CONFIRMED: AtomicBool = AtomicBool::new(false);
+
+/// CPU budget of the first run of a generated project.  On the unchanged tree the slowest generated
+/// input takes about a second (`coverage.budgets.slowest_binary_run_wall_ms` in the evidence); the
+/// documented time box of the analyses is 2 x 10 s.  A hit is re-run with four times the budget
+/// before it counts.  The quick tier uses a quarter of the thorough budgets so that a run against a
+/// tree that hangs on many inputs stays within minutes.
+fn first_budget(ctx: &Ctx, tag: &str) -> u64 {
+    match (ctx.tier, tag == "deep") {
+        (Tier::Quick, false) => 30,
+        (Tier::Quick, true) => 10,
+        (Tier::Thorough, false) => 120,
+        (Tier::Thorough, true) => 30,
+    }
+}
+
 fn scratch(ctx: &Ctx, tag: &str) -> PathBuf {
     let d = ctx.scratch.join(format!("{tag}-{:?}", std::thread::current().id()).replace(['(', ')'], ""));
     let _ = std::fs::remove_dir_all(&d);
@@ -133,18 +151,26 @@ fn run_project(ctx: &Ctx, project: &Project, t: &mut Tape, rec: &Rec, tag: &str)
         paths.push(p);
     }
     let mut opts = options(t, &paths, &dir);
-    if tag == "deep" {
-        // these inputs take at most about a second on the unchanged tree; a quarter of the usual budget
-        // (and of the re-run budget) keeps a run against a tree that hangs on them affordable
-        opts.cpu_secs = 30;
-    }
+    opts.cpu_secs = first_budget(ctx, tag);
     let out = binrun::run(&ctx.repo_bin, &opts).map_err(|e| Bad::new(format!("INFRA {e}")))?;
     let mut verdict = judge(&out, opts.cpu_secs);
     if let Err((_, sig)) = &verdict {
         if sig == "C01:resource-limit" {
-            opts.cpu_secs *= 4;
-            let again = binrun::run(&ctx.repo_bin, &opts).map_err(|e| Bad::new(format!("INFRA {e}")))?;
-            verdict = judge(&again, opts.cpu_secs);
+            if HANG_CONFIRMED.load(Ordering::Relaxed) {
+                // Some earlier case of this process already exceeded the first budget and four times
+                // that budget on its re-run: the run is going to report a violation with this
+                // signature in any case.  Further hits (mostly shrink candidates of that case) are
+                // taken at the first budget; `--replay` starts a new process and confirms in full.
+                rec.class("resource_limit_hits_not_rerun_after_a_confirmed_one");
+            } else {
+                opts.cpu_secs *= 4;
+                let again = binrun::run(&ctx.repo_bin, &opts).map_err(|e| Bad::new(format!("INFRA {e}")))?;
+                verdict = judge(&again, opts.cpu_secs);
+                match &verdict {
+                    Err((_, sig)) if sig == "C01:resource-limit" => HANG_CONFIRMED.store(true, Ordering::Relaxed),
+                    _ => rec.class("resource_limit_hits_cleared_by_rerun"),
+                }
+            }
         }
     }
     // statistics
